@@ -1837,12 +1837,106 @@ func (e *verifEnv) genConcCall(v *verifView, outer bool) verifConcCall {
 	return verifConcCall{name: "stat", key: pick(verifAny, "nope"), labels: "-"}
 }
 
+// staleCleanupProbe — KNOWN finding `live-snapshot-dir-removed-by-stale-cleanup-after-id-reuse`
+// (crash point x schedule).  A crash between Rename and Commit of a createSnapshot leaves
+// snapshots/<next id> (bolt rolls the id sequence back with the transaction; the C09 images have exactly
+// this shape).  After the restart a Cleanup scans ([<next id>]), unmounts and is descheduled at
+// cleanupdir.unmounted; a Prepare fails once ("rename: file exists") reclaiming the leftover itself, the
+// next Prepare succeeds and RE-USES the id; the Cleanup resumes and RemoveAll()s the directory of the
+// now live snapshot.  Reported only if that really happens.
+func (e *verifEnv) staleCleanupProbe() {
+	ctx := context.Background()
+	e.reset([3]bool{true, false, false})
+	op := &verifOp{name: "prepare", key: "a", labels: "-", orc: verifNoFaults()}
+	e.exec(op)
+	last := verifIDOf(e.sn, "a")
+	n, err := strconv.Atoi(last)
+	if err != nil {
+		e.out.Count("probe/stale-cleanup-skipped")
+		return
+	}
+	next := strconv.Itoa(n + 1)
+	// the process dies between Rename and Commit of the next createSnapshot
+	e.sn.(*snapshotter).ms.Close()
+	e.sn = nil
+	os.MkdirAll(filepath.Join(e.root, "snapshots", next, "fs"), 0o755)
+	os.MkdirAll(filepath.Join(e.root, "snapshots", next, "work"), 0o711)
+	sn, err := NewSnapshotter(ctx, e.root, &verifFS{e}, e.opts()...)
+	if err != nil {
+		e.t.Fatalf("probe restart: %v", err)
+	}
+	e.sn = sn
+	e.mu.Lock()
+	e.orc = verifNoFaults()
+	e.trace = nil
+	e.curOp = "concurrent stale-cleanup probe"
+	e.concurrent = true
+	e.mu.Unlock()
+	defer func() { e.mu.Lock(); e.concurrent = false; e.mu.Unlock() }()
+
+	hold, resume, done := make(chan struct{}), make(chan struct{}), make(chan struct{})
+	var once sync.Once
+	prev := e.onMarker
+	e.onMarker = func(name string, _ int) {
+		if name != "cleanupdir.unmounted" {
+			return
+		}
+		blocked := false
+		once.Do(func() { blocked = true })
+		if blocked {
+			close(hold) // the Cleanup has scanned and unmounted; it is descheduled here
+			<-resume
+		}
+	}
+	go func() {
+		defer close(done)
+		e.rawCall(verifConcCall{name: "cleanup", labels: "-"})
+	}()
+	reached := false
+	select {
+	case <-hold:
+		reached = true
+	case <-done: // nothing to clean (the leftover was not listed): the window does not exist
+	case <-time.After(5 * time.Second):
+	}
+	var e1, e2 error
+	if reached {
+		_, e1 = e.rawCall(verifConcCall{name: "prepare", key: "b", labels: "-"})
+		_, e2 = e.rawCall(verifConcCall{name: "prepare", key: "b", labels: "-"})
+		close(resume)
+	}
+	select {
+	case <-done:
+	case <-time.After(20 * time.Second):
+		e.t.Fatalf("stale-cleanup probe: Cleanup hung")
+	}
+	e.mu.Lock()
+	e.onMarker = prev
+	e.mu.Unlock()
+	e.out.Count("probe/stale-cleanup-ran")
+	if !reached {
+		e.out.Count("probe/stale-cleanup-window-not-reached")
+		return
+	}
+	v := verifTakeView(e.root, e.sn, e.live)
+	for _, k := range v.order {
+		i := v.infos[k]
+		if _, err := os.Stat(filepath.Join(e.root, "snapshots", i.id, "fs")); err != nil {
+			e.out.Fail("live-snapshot-dir-removed-by-stale-cleanup-after-id-reuse",
+				fmt.Sprintf("leftover snapshots/%s after a crash between Rename and Commit; Cleanup descheduled at cleanupdir.unmounted; "+
+					"Prepare(b) -> %s, Prepare(b) -> %s re-using id %s; Cleanup resumed: live snapshot %s (id %s) has no fs directory",
+					next, verifErrClass(e1), verifErrClass(e2), i.id, k, i.id))
+		}
+	}
+}
+
 // TestVerifC08Conc — the concurrent-callers stream (oracle only, nothing is emitted for the model).
 func TestVerifC08Conc(t *testing.T) {
 	e := verifNewEnv(t, "C08")
 	e.quiet = true
 	defer e.finish()
 	wait := time.Duration(verifutil.EnvInt("VERIF_CONC_WAIT_MS", 200)) * time.Millisecond
+	e.staleCleanupProbe()
 	seq := func(ops ...*verifOp) {
 		for _, op := range ops {
 			op.orc = verifNoFaults()
